@@ -93,25 +93,25 @@ mod verif_c11_trackers {
         };
     }
 
-    // @harness id=C11 tier=quick timeout=1800 mem=12 checks=rust
+    // @harness id=C11 tier=deep timeout=3400 mem=28 checks=rust
     // @bounds tick() on a hidden bar with a custom key (position over u64): the tracker is ticked exactly once and sees the current state
     c11_tracker!(c11_tracker_ticked_on_tick, 0);
-    // @harness id=C11 tier=quick timeout=1800 mem=12 checks=rust
+    // @harness id=C11 tier=deep timeout=3400 mem=28 checks=rust
     // @bounds set_length(any u64): the tracker is ticked exactly once and sees the NEW length
     c11_tracker!(c11_tracker_ticked_on_set_length, 1);
-    // @harness id=C11 tier=quick timeout=1800 mem=12 checks=rust
+    // @harness id=C11 tier=deep timeout=3400 mem=28 checks=rust
     // @bounds inc_length(any u64): ticked once, sees the saturated new length
     c11_tracker!(c11_tracker_ticked_on_inc_length, 2);
-    // @harness id=C11 tier=thorough timeout=1800 mem=12 checks=rust
+    // @harness id=C11 tier=deep timeout=3400 mem=28 checks=rust
     // @bounds dec_length(any u64): ticked once, sees the saturated new length
     c11_tracker!(c11_tracker_ticked_on_dec_length, 3);
-    // @harness id=C11 tier=quick timeout=1800 mem=12 checks=rust
+    // @harness id=C11 tier=deep timeout=3400 mem=28 checks=rust
     // @bounds unset_length(): ticked once, sees an unknown length
     c11_tracker!(c11_tracker_ticked_on_unset_length, 4);
-    // @harness id=C11 tier=quick timeout=1800 mem=12 checks=rust
+    // @harness id=C11 tier=deep timeout=3400 mem=28 checks=rust
     // @bounds set_message (assignment + update_estimate_and_draw, as ProgressBar performs it): ticked once
     c11_tracker!(c11_tracker_ticked_on_set_message, 5);
-    // @harness id=C11 tier=quick timeout=1800 mem=12 checks=rust
+    // @harness id=C11 tier=deep timeout=3400 mem=28 checks=rust
     // @bounds reset(): the tracker is reset exactly once (and not ticked)
     c11_tracker!(c11_tracker_reset_on_reset, 6);
 }
